@@ -70,6 +70,15 @@ def hourly(draw, family=None, ref=None, aware=None):
         start = draw(st.integers(0, 24 * 400))
     else:
         mode = draw(st.sampled_from(["same", "overlap", "disjoint", "shift"]))
+        others = [g for g in range(1, len(ref["values"]) - 1) if g != ref.get("gap")] \
+            if ref.get("gap") is not None else []
+        if others and draw(st.booleans()):
+            # same first hour, same last hour, same number of rows - but the hole is elsewhere (two UTC series of
+            # countries whose clocks go back on different nights)
+            k = len(ref["values"])
+            return {"kind": "hourly", "start": ref["start"], "values": draw(st.lists(mags(), min_size=k, max_size=k)),
+                    "unit": draw(st.sampled_from(UNITS[fam])), "fam": fam,
+                    "aware": ref["aware"] if aware is None else aware, "gap": draw(st.sampled_from(others))}
         if mode == "same":
             start, n = ref["start"], len(ref["values"])
         elif mode == "overlap":
